@@ -467,6 +467,17 @@ int SimulateMips::execute()
       if (((opcode >> 6) & 0x3ff) == 0 && (opcode & 0x3f) == 0x1a)
       {
         // div
+        // The result of a division by 0 is unpredictable on the CPU, but
+        // it doesn't trap; neither does the one quotient that overflows.
+        if (reg[rt] == 0) { break; }
+
+        if (reg[rs] == INT32_MIN && reg[rt] == -1)
+        {
+          hi = 0;
+          lo = (uint32_t)INT32_MIN;
+          break;
+        }
+
         hi = reg[rs] % reg[rt];
         lo = reg[rs] / reg[rt];
         break;
@@ -475,8 +486,10 @@ int SimulateMips::execute()
       if (((opcode >> 6) & 0x3ff) == 0 && (opcode & 0x3f) == 0x1b)
       {
         // divu
-        hi = reg[rs] % reg[rt];
-        lo = reg[rs] / reg[rt];
+        if (reg[rt] == 0) { break; }
+
+        hi = (uint32_t)reg[rs] % (uint32_t)reg[rt];
+        lo = (uint32_t)reg[rs] / (uint32_t)reg[rt];
         break;
       }
 
